@@ -66,4 +66,69 @@ closed (`connAborter.Signal`): no descriptor leaks, the accept loop keeps runnin
 theorem C07_fact_conn_error_path : Facts.reload_conn_close_order = ["recvChan.Flush", "recvChan.Close", "connAborter.Signal"] ∧
     Facts.c07_error_condition = ["util.IsNetworkClosed(readErr) && listener.stopRequest.Peek()"] := by decide
 
+
+/-! ### the accept loop (`tcplinelistener.go` `run`): what can end it
+
+The outcomes of `AcceptTCP` are the environment's: a connection, a temporary failure (no free file descriptor, no buffer
+space, a connection aborted before it was accepted), or any other error; the stop request closes the socket.  After the
+repair of F-30 a temporary failure is retried. -/
+
+inductive AcceptEv where
+  | conn            -- a connection is accepted
+  | temporary       -- EMFILE / ENFILE / ENOBUFS / ENOMEM / ECONNABORTED
+  | fatal           -- any other error
+  | stop            -- stop request: the socket is closed, AcceptTCP returns "use of closed network connection"
+  deriving DecidableEq, Repr
+
+structure AcceptSt where
+  accepting : Bool := true
+  stopRequested : Bool := false
+  accepted : Nat := 0
+  deriving DecidableEq, Repr
+
+def acceptStep (s : AcceptSt) : AcceptEv → AcceptSt
+  | .conn => if s.accepting then { s with accepted := s.accepted + 1 } else s
+  | .temporary => if s.accepting ∧ s.stopRequested then { s with accepting := false } else s      -- retried unless stopping
+  | .fatal => { s with accepting := false }
+  | .stop => { s with accepting := false, stopRequested := true }
+
+/-- the loop before the repair: every error ends it -/
+def legacyAcceptStep (s : AcceptSt) : AcceptEv → AcceptSt
+  | .temporary => { s with accepting := false }
+  | e => acceptStep s e
+
+/-- **C07 (keeps accepting connections).** Whatever sequence of connections and temporary accept failures the clients and the
+system produce, the listener is still accepting afterwards and has accepted every connection that arrived. -/
+theorem C07_listener_keeps_accepting (evs : List AcceptEv) (h : ∀ e ∈ evs, e = .conn ∨ e = .temporary) :
+    (evs.foldl acceptStep {}).accepting = true ∧ (evs.foldl acceptStep {}).accepted = evs.count .conn := by
+  suffices ∀ s : AcceptSt, s.accepting = true → s.stopRequested = false →
+      (evs.foldl acceptStep s).accepting = true ∧ (evs.foldl acceptStep s).accepted = s.accepted + evs.count .conn by
+    simpa using this {} rfl rfl
+  induction evs with
+  | nil => intro s h1 _; exact ⟨h1, by simp⟩
+  | cons e es ih =>
+    intro s h1 h2
+    have he := h e (by simp)
+    have ih' := ih (fun x hx => h x (by simp [hx]))
+    rcases he with rfl | rfl
+    · have := ih' (acceptStep s .conn) (by simp [acceptStep, h1]) (by simp [acceptStep, h1, h2])
+      simp only [List.foldl_cons]
+      refine ⟨this.1, ?_⟩
+      rw [this.2]; simp [acceptStep, h1]; omega
+    · have hs : acceptStep s .temporary = s := by simp [acceptStep, h2]
+      simp only [List.foldl_cons, hs]
+      have := ih' s h1 h2
+      refine ⟨this.1, ?_⟩
+      rw [this.2]; simp
+
+/-- before the repair one temporary failure was enough (F-30) -/
+theorem legacy_F30 : ([AcceptEv.conn, .temporary, .conn].foldl legacyAcceptStep {}).accepted = 1 ∧
+    ([AcceptEv.conn, .temporary, .conn].foldl acceptStep {}).accepted = 2 := by decide
+
+/-- the error handling of the accept loop, in order, and the errors that count as temporary -/
+theorem C07_fact_accept_errors : Facts.c07_accept_error_branches =
+    ["util.IsTemporaryAcceptError(acceptErr) && !listener.stopRequest.Peek()",
+     "!(listener.stopRequest.Peek() && util.IsNetworkClosed(acceptErr))",
+     "syscall.EMFILE", "syscall.ENFILE", "syscall.ENOBUFS", "syscall.ENOMEM", "syscall.ECONNABORTED"] := by decide
+
 end C07
